@@ -49,10 +49,12 @@ template <class T> std::string show_all(std::vector<T> const &v)
     s += (i ? "," : "") + scalar_traits<T>::show(v[i]);
   return s + "}";
 }
-template <class T> void expect_all(std::vector<T> const &got, std::vector<T> const &want, std::string const &sig, std::string const &what)
+template <class T> bool expect_all(std::vector<T> const &got, std::vector<T> const &want, std::string const &sig, std::string const &what)
 {
-  if (!(got == want))
-    failv(sig, what + ": got " + show_all(got) + " want " + show_all(want));
+  if (got == want)
+    return true;
+  failv(sig, what + ": got " + show_all(got) + " want " + show_all(want));
+  return false;
 }
 
 // ------------------------------------------------------------------ holders: object + raw element access
@@ -150,68 +152,101 @@ template <int Acc, sz r, sz c, class M> decltype(auto) macc(M &m)
     else return row.w();
   }
 }
-// the whole matrix read through accessor Acc
-template <int Acc, sz R, sz C, class T, class M> std::vector<T> read_matrix(M &m)
+// one table entry per (accessor, row, column): the test body below is compiled once and
+// runs over the table at run time
+template <class T, class M> struct matrix_entry
 {
-  std::vector<T> out;
-  static_for_rc<R, C>([&](auto ri, auto ci) {
-    constexpr sz r = decltype(ri)::value, c = decltype(ci)::value;
-    out.push_back(macc<Acc, r, c>(m));
-  });
-  return out;
+  int acc;
+  sz r, c;
+  void (*apply)(M &, int, T const &); // op 0: =, 1: +=, 2: *=, 3: -=
+  T (*get)(M &);
+  T (*cget)(M const &);
+  bool is_ref, is_cref;
+};
+template <int A, sz r, sz c, class T, class M> void apply_m(M &m, int op, T const &v)
+{
+  switch (op)
+  {
+  case 0: macc<A, r, c>(m) = v; break;
+  case 1: macc<A, r, c>(m) += v; break;
+  case 2: macc<A, r, c>(m) *= v; break;
+  default: macc<A, r, c>(m) -= v; break;
+  }
 }
-template <sz R, sz C, class T, class M> void read_back_matrix(M &m, std::vector<T> const &want, std::string const &sg, std::string const &what)
+template <int A, sz r, sz c, class T, class M> T get_m(M &m) { return macc<A, r, c>(m); }
+template <int A, sz r, sz c, class T, class M> T cget_m(M const &m) { return macc<A, r, c>(m); }
+template <class T, sz R, sz C, class M> std::vector<matrix_entry<T, M>> matrix_table()
 {
-  M const &cm = m;
+  std::vector<matrix_entry<T, M>> t;
   static_for<matrix_accessors>([&](auto ai) {
     constexpr int A = static_cast<int>(decltype(ai)::value);
-    std::string const an = matrix_accessor_name[A];
-    expect_all(read_matrix<A, R, C, T>(m), want, sg + ":read:" + an, what + ", read back through " + an);
-    expect_all(read_matrix<A, R, C, T>(cm), want, sg + ":const_read:" + an, what + ", read back through " + an + " (const object)");
+    static_for_rc<R, C>([&](auto ri, auto ci) {
+      constexpr sz r = decltype(ri)::value, c = decltype(ci)::value;
+      t.push_back(matrix_entry<T, M>{A, r, c, &apply_m<A, r, c, T, M>, &get_m<A, r, c, T, M>, &cget_m<A, r, c, T, M>,
+                                     std::is_same_v<decltype(macc<A, r, c>(std::declval<M &>())), T &>,
+                                     std::is_same_v<decltype(macc<A, r, c>(std::declval<M const &>())), T const &>});
+    });
   });
+  return t;
+}
+template <class T, class M>
+void read_back_matrix(std::vector<matrix_entry<T, M>> const &table, sz C, M &m, std::vector<T> const &want, std::string const &sg, std::string const &what)
+{
+  M const &cm = m;
+  for (auto const &e : table)
+  {
+    T const a = e.get(m), b = e.cget(cm);
+    std::string const an = matrix_accessor_name[e.acc];
+    if (!(a == want[e.r * C + e.c]))
+      failv(sg + ":read:" + an, what + ", element (" + std::to_string(e.r) + "," + std::to_string(e.c) + ") read back through " + an + ": got " +
+                                    scalar_traits<T>::show(a) + " want " + scalar_traits<T>::show(want[e.r * C + e.c]));
+    if (!(b == want[e.r * C + e.c]))
+      failv(sg + ":const_read:" + an, what + ", element (" + std::to_string(e.r) + "," + std::to_string(e.c) + ") read back through " + an +
+                                          " (const object): got " + scalar_traits<T>::show(b) + " want " + scalar_traits<T>::show(want[e.r * C + e.c]));
+  }
 }
 
 template <class T, sz R, sz C, class Holder> void matrix_write_access()
 {
   using tr = scalar_traits<T>;
+  using M = typename Holder::M;
   std::string const tn = tr::name;
   std::string const fn = "write_access<" + tn + ",matrix " + shape(R, C) + "," + Holder::name() + ">";
   std::vector<T> base;
   for (sz i = 0; i < R * C; ++i)
     base.push_back(tr::mark(10 + 3 * static_cast<long>(i)));
-  static_for<matrix_accessors>([&](auto ai) {
-    constexpr int A = static_cast<int>(decltype(ai)::value);
-    std::string const an = matrix_accessor_name[A];
+  auto const table = matrix_table<T, R, C, M>();
+  for (auto const &e : table)
+  {
+    std::string const an = matrix_accessor_name[e.acc];
     std::string const sg = "write_access<" + tn + ">:matrix:" + an;
-    static_for_rc<R, C>([&](auto ri, auto ci) {
-      constexpr sz r = decltype(ri)::value, c = decltype(ci)::value;
-      if (!vrt::begin_text(fn.c_str(), fn + " accessor=" + an + " r=" + std::to_string(r) + " c=" + std::to_string(c)))
-        return;
-      vrt::nontrivial(R * C > 1);
-      vrt::maybe_sample();
-      Holder h(base);
-      using M = typename Holder::M;
-      C14_TRUE((std::is_same_v<decltype(macc<A, r, c>(h.m())), T &>), sg + ":result_type", "the accessor does not return T& on a non-const object");
-      C14_TRUE((std::is_same_v<decltype(macc<A, r, c>(std::declval<M const &>())), T const &>), sg + ":result_type:const",
-               "the accessor does not return T const& on a const object");
-      std::vector<T> want = base;
-      read_back_matrix<R, C, T>(h.m(), want, sg, "before any write");
-      macc<A, r, c>(h.m()) = tr::mark(77);
-      want[r * C + c] = tr::mark(77);
-      expect_all(h.raw(), want, sg + ":assign", "accessor(m) = x, raw elements");
-      read_back_matrix<R, C, T>(h.m(), want, sg, "after accessor(m) = x");
-      macc<A, r, c>(h.m()) += tr::mark(5);
-      want[r * C + c] += tr::mark(5);
-      expect_all(h.raw(), want, sg + ":compound", "accessor(m) += y, raw elements");
-      macc<A, r, c>(h.m()) *= tr::mark(2);
-      want[r * C + c] *= tr::mark(2);
-      macc<A, r, c>(h.m()) -= tr::mark(1);
-      want[r * C + c] -= tr::mark(1);
-      expect_all(h.raw(), want, sg + ":compound", "accessor(m) *= z; accessor(m) -= w, raw elements");
-      read_back_matrix<R, C, T>(h.m(), want, sg, "after the compound assignments");
-      C14_TRUE(h.decoys_ok(), sg + ":decoy", "a write through the accessor changed memory outside the matrix");
-    });
-  });
+    if (!vrt::begin_text(fn.c_str(), fn + " accessor=" + an + " r=" + std::to_string(e.r) + " c=" + std::to_string(e.c)))
+      continue;
+    vrt::nontrivial(R * C > 1);
+    vrt::maybe_sample();
+    Holder h(base);
+    C14_TRUE(e.is_ref, sg + ":result_type", "the accessor does not return T& on a non-const object");
+    C14_TRUE(e.is_cref, sg + ":result_type:const", "the accessor does not return T const& on a const object");
+    std::vector<T> want = base;
+    sz const at = e.r * C + e.c;
+    read_back_matrix(table, C, h.m(), want, sg, "before any write");
+    e.apply(h.m(), 0, tr::mark(77));
+    want[at] = tr::mark(77);
+    if (!expect_all(h.raw(), want, sg + ":assign", "accessor(m) = x, raw elements"))
+      continue; // the write was lost: everything after it would only repeat that
+    read_back_matrix(table, C, h.m(), want, sg, "after accessor(m) = x");
+    e.apply(h.m(), 1, tr::mark(5));
+    want[at] += tr::mark(5);
+    if (!expect_all(h.raw(), want, sg + ":compound", "accessor(m) += y, raw elements"))
+      continue;
+    e.apply(h.m(), 2, tr::mark(2));
+    want[at] *= tr::mark(2);
+    e.apply(h.m(), 3, tr::mark(1));
+    want[at] -= tr::mark(1);
+    expect_all(h.raw(), want, sg + ":compound", "accessor(m) *= z; accessor(m) -= w, raw elements");
+    read_back_matrix(table, C, h.m(), want, sg, "after the compound assignments");
+    C14_TRUE(h.decoys_ok(), sg + ":decoy", "a write through the accessor changed memory outside the matrix");
+  }
   // whole rows through the row view returned by at_r
   static_for<R>([&](auto ri) {
     constexpr sz r = decltype(ri)::value;
@@ -220,7 +255,6 @@ template <class T, sz R, sz C, class Holder> void matrix_write_access()
       return;
     vrt::nontrivial(true);
     Holder h(base);
-    using M = typename Holder::M;
     C14_TRUE((std::is_same_v<decltype(fm::at_r<r>(h.m())), typename M::reference>), sg + ":result_type", "at_r does not return matrix::reference");
     C14_TRUE((std::is_same_v<decltype(fm::at_r<r>(std::declval<M const &>())), typename M::const_reference>), sg + ":result_type:const",
              "at_r does not return matrix::const_reference on a const object");
@@ -246,7 +280,7 @@ template <class T, sz R, sz C, class Holder> void matrix_write_access()
       want[r * C + c] *= tr::mark(3);
     }
     expect_all(h.raw(), want, sg + ":compound", "at_r<r>(m) += v; at_r<r>(m) *= s");
-    read_back_matrix<R, C, T>(h.m(), want, sg, "after writes through the row view");
+    read_back_matrix(table, C, h.m(), want, sg, "after writes through the row view");
     C14_TRUE(h.decoys_ok(), sg + ":decoy", "a write through the row view changed memory outside the matrix");
   });
 }
@@ -339,91 +373,109 @@ template <bool IsVector, int Acc, sz i, class V> decltype(auto) vacc(V &v)
 }
 template <bool IsVector, int Acc, sz i> constexpr bool vacc_exists() { return Acc != 1 || i < (IsVector ? 4U : 3U); }
 
-template <bool IsVector, sz N, class T, class V> void read_back_vd(V &v, std::vector<T> const &want, std::string const &sg, std::string const &what)
+template <class T, class V> struct vd_entry
 {
-  V const &cv = v;
+  int acc;
+  sz i;
+  void (*apply)(V &, int, T const &);
+  T (*get)(V &);
+  T (*cget)(V const &);
+  bool is_ref, is_cref;
+};
+template <bool IsVector, int A, sz i, class T, class V> void apply_v(V &v, int op, T const &x)
+{
+  switch (op)
+  {
+  case 0: vacc<IsVector, A, i>(v) = x; break;
+  case 1: vacc<IsVector, A, i>(v) += x; break;
+  case 2: vacc<IsVector, A, i>(v) *= x; break;
+  default: vacc<IsVector, A, i>(v) -= x; break;
+  }
+}
+template <bool IsVector, int A, sz i, class T, class V> T get_v(V &v) { return vacc<IsVector, A, i>(v); }
+template <bool IsVector, int A, sz i, class T, class V> T cget_v(V const &v) { return vacc<IsVector, A, i>(v); }
+template <bool IsVector, class T, sz N, class V> std::vector<vd_entry<T, V>> vd_table()
+{
+  std::vector<vd_entry<T, V>> t;
   static_for<vd_accessors>([&](auto ai) {
     constexpr int A = static_cast<int>(decltype(ai)::value);
-    std::string const an = vd_accessor_name[A];
     static_for<N>([&](auto ii) {
       constexpr sz i = decltype(ii)::value;
       if constexpr (vacc_exists<IsVector, A, i>())
-      {
-        T const a = vacc<IsVector, A, i>(v);
-        T const b = vacc<IsVector, A, i>(cv);
-        if (!(a == want[i]))
-          failv(sg + ":read:" + an, what + ", component " + std::to_string(i) + " read back through " + an + ": got " + scalar_traits<T>::show(a) + " want " +
-                                        scalar_traits<T>::show(want[i]));
-        if (!(b == want[i]))
-          failv(sg + ":const_read:" + an, what + ", component " + std::to_string(i) + " read back through " + an + " (const object): got " +
-                                              scalar_traits<T>::show(b) + " want " + scalar_traits<T>::show(want[i]));
-      }
+        t.push_back(vd_entry<T, V>{A, i, &apply_v<IsVector, A, i, T, V>, &get_v<IsVector, A, i, T, V>, &cget_v<IsVector, A, i, T, V>,
+                                   std::is_same_v<decltype(vacc<IsVector, A, i>(std::declval<V &>())), T &>,
+                                   std::is_same_v<decltype(vacc<IsVector, A, i>(std::declval<V const &>())), T const &>});
     });
   });
+  return t;
+}
+template <class T, class V>
+void read_back_vd(std::vector<vd_entry<T, V>> const &table, V &v, std::vector<T> const &want, std::string const &sg, std::string const &what)
+{
+  V const &cv = v;
+  for (auto const &e : table)
+  {
+    T const a = e.get(v), b = e.cget(cv);
+    std::string const an = vd_accessor_name[e.acc];
+    if (!(a == want[e.i]))
+      failv(sg + ":read:" + an, what + ", component " + std::to_string(e.i) + " read back through " + an + ": got " + scalar_traits<T>::show(a) + " want " +
+                                    scalar_traits<T>::show(want[e.i]));
+    if (!(b == want[e.i]))
+      failv(sg + ":const_read:" + an, what + ", component " + std::to_string(e.i) + " read back through " + an + " (const object): got " +
+                                          scalar_traits<T>::show(b) + " want " + scalar_traits<T>::show(want[e.i]));
+  }
 }
 
 template <bool IsVector, class T, sz N, class Holder> void vd_write_access()
 {
   using tr = scalar_traits<T>;
+  using V = typename Holder::V;
   std::string const tn = tr::name;
   std::string const kind = IsVector ? "vector" : "dim";
   std::string const fn = "write_access<" + tn + "," + kind + " " + std::to_string(N) + "," + Holder::name() + ">";
   std::vector<T> base;
   for (sz i = 0; i < N; ++i)
     base.push_back(tr::mark(10 + 3 * static_cast<long>(i)));
-  static_for<vd_accessors>([&](auto ai) {
-    constexpr int A = static_cast<int>(decltype(ai)::value);
-    std::string const an = vd_accessor_name[A];
+  auto const table = vd_table<IsVector, T, N, V>();
+  for (auto const &e : table)
+  {
+    std::string const an = vd_accessor_name[e.acc];
     std::string const sg = "write_access<" + tn + ">:" + kind + ":" + an;
-    static_for<N>([&](auto ii) {
-      constexpr sz i = decltype(ii)::value;
-      if constexpr (vacc_exists<IsVector, A, i>())
-      {
-        if (!vrt::begin_text(fn.c_str(), fn + " accessor=" + an + " i=" + std::to_string(i)))
-          return;
-        vrt::nontrivial(N > 1);
-        vrt::maybe_sample();
-        Holder h(base);
-        using V = typename Holder::V;
-        C14_TRUE((std::is_same_v<decltype(vacc<IsVector, A, i>(h.v())), T &>), sg + ":result_type", "the accessor does not return T& on a non-const object");
-        C14_TRUE((std::is_same_v<decltype(vacc<IsVector, A, i>(std::declval<V const &>())), T const &>), sg + ":result_type:const",
-                 "the accessor does not return T const& on a const object");
-        std::vector<T> want = base;
-        read_back_vd<IsVector, N, T>(h.v(), want, sg, "before any write");
-        vacc<IsVector, A, i>(h.v()) = tr::mark(77);
-        want[i] = tr::mark(77);
-        expect_all(h.raw(), want, sg + ":assign", "accessor(v) = x, raw elements");
-        read_back_vd<IsVector, N, T>(h.v(), want, sg, "after accessor(v) = x");
-        vacc<IsVector, A, i>(h.v()) += tr::mark(5);
-        want[i] += tr::mark(5);
-        vacc<IsVector, A, i>(h.v()) *= tr::mark(2);
-        want[i] *= tr::mark(2);
-        vacc<IsVector, A, i>(h.v()) -= tr::mark(1);
-        want[i] -= tr::mark(1);
-        expect_all(h.raw(), want, sg + ":compound", "accessor(v) += y; *= z; -= w, raw elements");
-        read_back_vd<IsVector, N, T>(h.v(), want, sg, "after the compound assignments");
-        C14_TRUE(h.decoys_ok(), sg + ":decoy", "a write through the accessor changed memory outside the object");
-      }
-    });
-  });
+    if (!vrt::begin_text(fn.c_str(), fn + " accessor=" + an + " i=" + std::to_string(e.i)))
+      continue;
+    vrt::nontrivial(N > 1);
+    vrt::maybe_sample();
+    Holder h(base);
+    C14_TRUE(e.is_ref, sg + ":result_type", "the accessor does not return T& on a non-const object");
+    C14_TRUE(e.is_cref, sg + ":result_type:const", "the accessor does not return T const& on a const object");
+    std::vector<T> want = base;
+    read_back_vd(table, h.v(), want, sg, "before any write");
+    e.apply(h.v(), 0, tr::mark(77));
+    want[e.i] = tr::mark(77);
+    if (!expect_all(h.raw(), want, sg + ":assign", "accessor(v) = x, raw elements"))
+      continue; // the write was lost: everything after it would only repeat that
+    read_back_vd(table, h.v(), want, sg, "after accessor(v) = x");
+    e.apply(h.v(), 1, tr::mark(5));
+    want[e.i] += tr::mark(5);
+    e.apply(h.v(), 2, tr::mark(2));
+    want[e.i] *= tr::mark(2);
+    e.apply(h.v(), 3, tr::mark(1));
+    want[e.i] -= tr::mark(1);
+    expect_all(h.raw(), want, sg + ":compound", "accessor(v) += y; *= z; -= w, raw elements");
+    read_back_vd(table, h.v(), want, sg, "after the compound assignments");
+    C14_TRUE(h.decoys_ok(), sg + ":decoy", "a write through the accessor changed memory outside the object");
+  }
 }
 
 template <class T> void all_write_access()
 {
-  matrix_write_access<T, 1, 1, static_matrix_holder<T, 1, 1>>();
-  matrix_write_access<T, 2, 2, static_matrix_holder<T, 2, 2>>();
   matrix_write_access<T, 2, 3, static_matrix_holder<T, 2, 3>>();
   matrix_write_access<T, 3, 2, static_matrix_holder<T, 3, 2>>();
   matrix_write_access<T, 4, 4, static_matrix_holder<T, 4, 4>>();
   matrix_write_access<T, 2, 3, block_matrix_holder<T, 2, 3>>();
-  matrix_write_access<T, 3, 3, block_matrix_holder<T, 3, 3>>();
   vd_write_access<true, T, 1, static_vd_holder<true, T, 1>>();
-  vd_write_access<true, T, 2, static_vd_holder<true, T, 2>>();
-  vd_write_access<true, T, 3, static_vd_holder<true, T, 3>>();
   vd_write_access<true, T, 4, static_vd_holder<true, T, 4>>();
   vd_write_access<true, T, 3, strided_vd_holder<true, T, 3>>();
-  vd_write_access<false, T, 1, static_vd_holder<false, T, 1>>();
-  vd_write_access<false, T, 2, static_vd_holder<false, T, 2>>();
   vd_write_access<false, T, 3, static_vd_holder<false, T, 3>>();
   vd_write_access<false, T, 2, strided_vd_holder<false, T, 2>>();
 }
